@@ -50,7 +50,7 @@ def parse_vcd(text):
                     series.setdefault(n, []).append(v)
             t = int(line[1:])
             continue
-        m = re.match(r'^b([01]+) (\S+)$', line)
+        m = re.match(r'^b([01]+) (.+)$', line)
         if not m:
             raise ValueError('unparsable VCD line %r' % line)
         if not in_dump:
@@ -148,6 +148,28 @@ def check_design(ctx, d, steps, regmap, memmap, label):
                     ctx.violation('print_trace-decode:' + nm, '%s: print_trace(base=%d) decodes differently for %r' % (nm, base, bad), rp)
                     ok = False
                     break
+            # compact form: the digits of every value in the requested base, nothing in between
+            digits = '0123456789abcdef'
+
+            def in_base(v, base):
+                out = ''
+                while True:
+                    out = digits[v % base] + out
+                    v //= base
+                    if v == 0:
+                        return out
+            for base in (2, 8, 10, 16):
+                buf = io.StringIO()
+                sim.tracer.print_trace(buf, base=base, compact=True)
+                lines = [l for l in buf.getvalue().split('\n') if l.strip()]
+                width = max(len(w) for w in base_trace)
+                want = sorted(w.rjust(width) + ' ' + ''.join(in_base(v, base) for v in vals) for w, vals in base_trace.items())
+                if sorted(lines) != want:
+                    bad = [l for l in lines if l not in want][:1]
+                    ctx.violation('print_trace-compact:' + nm, '%s: print_trace(base=%d, compact=True) prints %r, the traced values give %r' % (
+                        nm, base, bad, [x for x in want if x not in lines][:1]), rp)
+                    ok = False
+                    break
             ctx.count('channels-checked', nm)
         except Exception as e:  # noqa
             ctx.violation('channel-raises:' + nm, '%s raised %s while observing a legal simulation: %s' % (nm, type(e).__name__, str(e)[:160]), rp)
@@ -240,7 +262,7 @@ def main(ctx):
     agree = 0
     for k in range(n):
         d = gen.rand_design(rng, profile=('small', 'med', 'limb')[k % 3], nops=rng.randint(3, 10), raw=False,
-                            name_style='plain')
+                            name_style=('plain', 'verilog-nospace')[(k // 3) % 2])
         steps = gen.rand_stimulus(rng, d, rng.choice([3, 5, 8]))
         regmap, memmap, _ = gen.rand_init(rng, d, with_default=False)
         ok = check_design(ctx, d, steps, regmap, memmap, 'obs#%d' % k)
